@@ -253,7 +253,9 @@ class YAMLSpecification(Specification):
             specification.
         :returns: A set of variable names seen.
         """
-        dep_types = ["path", "git", "spack"]
+        # The list-valued dependency blocks (the ones get_study_environment
+        # turns into objects): each of their entries carries a name.
+        dep_types = ["paths", "git"]
 
         if "dependencies" not in self.environment:
             return keys_seen
